@@ -1,6 +1,7 @@
 package xmp
 
 import (
+	"errors"
 	"fmt"
 	"math"
 	"strconv"
@@ -44,7 +45,17 @@ func (xmp *XMP) parser(p property) (err error) {
 }
 
 // parseDate parses a Date and returns a time.Time or an error
+// maxDateLength is longer than any date the layouts below accept
+// ("2006-01-02T15:04:05.999999999+07:00" has 35 characters).
+const maxDateLength = 64
+
+var errDateLength = errors.New("xmp: error date value too long")
+
 func parseDate(buf []byte) (t time.Time, err error) {
+	if len(buf) > maxDateLength {
+		// time.Parse quotes the whole value in its error, once per layout tried
+		return t, errDateLength
+	}
 	str := string(buf)
 	if t, err = time.Parse("2006-01-02T15:04:05Z07:00", str); err != nil {
 		if t, err = time.Parse("2006-01-02T15:04:05.00", str); err != nil {
